@@ -325,7 +325,7 @@ func Exec(ctx context.Context, s storage.Storage, op *Op) *Result {
 		}
 		r.ETag, r.Size = res.ETag, res.Size
 		// AppendObjectResult carries no version id: learn it from a Head.
-		if o, herr := s.HeadObject(ctx, b, k, nil); herr == nil {
+		if o, herr := s.HeadObject(context.WithoutCancel(context.Background()), b, k, nil); herr == nil {
 			r.VersionID = o.VersionID
 		}
 		return r
